@@ -117,7 +117,7 @@ def run_impl(case, env):
 
 def model_requests(case, obs):
     k = case.get("kind", "history")
-    if "harness_exception" in obs:
+    if "harness_exception" in obs or "observer_locked" in obs:
         return []
     if k == "history":
         impl = [{"res": S.drop_aux(s["res"]), "dump": s["dump"]} for s in obs["steps"]]
@@ -152,6 +152,9 @@ def judge(case, obs, resps):
         return _infra(case, obs)
     if "skipped" in obs:
         return Judgement(case, True, True, None, kind="crash/syscall/skipped-no-strace", nontrivial=False)
+    if "observer_locked" in obs:
+        return Judgement(case, False, False, obs["observer_locked"], kind="history/observer-locked", nontrivial=True,
+                         failed_clause="not-visible-to-other-connections")
     if k == "nonfinite":
         ok = bool(obs.get("ok"))
         return Judgement(case, ok, True, None if ok else obs, kind="nonfinite", nontrivial=False,
